@@ -5,13 +5,15 @@ TRUSTED_BASE = [
     "Lean 4.33.0 kernel; Mathlib v4.33.0 as shipped; axioms propext, Classical.choice, Quot.sound only (audited with #print axioms on every property theorem)",
     "no sorry/admit/axiom/native_decide/bv_decide/implemented_by/unsafe in the sources the theorems rest on (grep in bin/check)",
     "the hand-written Lean model lean/GoIpa/Model/*.lean is tied to /repo by the correspondence run: go/cmd/harness executes the real code (built from /repo's working tree with -tags verif) and lean/Driver executes the model's definitions on the same self-contained case lines; bin/check compares the output lines",
-    "go/cmd/extract (T1) regenerates lean/GoIpa/Gen/*.lean from /repo's source on every run; Gen-dependent theorems are re-checked",
+    "go/cmd/extract (T1) regenerates lean/GoIpa/Gen/*.lean from /repo's source on every run — constants, Fiat-Shamir schedules, and statement-by-statement translations of parallel.Execute, of the 64-bit limb routines of fr (with every aliasing variant), of the repository's own curve formulas and of the square-root addition chain; Gen-dependent theorems are re-checked; the translators (≈2100 lines of Go) and the semantics given to math/bits Mul64/Add64/Sub64 are trusted",
+    "thorough tier: the compiled modules are additionally re-checked with leanchecker",
     "modelled, not verified: gnark-crypto's base-field arithmetic and curve formulas' Go code, Go runtime (goroutines, channels, sync), math/big, crypto/sha256, bytes.Buffer, io.ReadAtLeast, the amd64 assembly of fr",
 ]
 
 ASSUMPTIONS = [
     "G-assumption: the Banderwagon classes under the Edwards formulas form an abelian group of prime order r that is a module over Fr (typeclass hypothesis of the group-level theorems, validated by the C08 correspondence runs, never an axiom)",
     "H-assumption: SHA-256 is a parameter of the model; statements needing collision resistance or the random-oracle model are sampled, not proved",
+    "no longer assumed: p and r are prime (Pratt certificates, Lemmas/Primes.lean), Zp p / Zp r are fields with the executable operations (Lemmas/ZpField.lean), a and d are non-squares (Props/Concrete.lean)",
 ]
 
 
